@@ -242,7 +242,11 @@ func shapeToJSON(sh string) string {
 				kv := strings.SplitN(f, ":", 2)
 				m[kv[0]] = kv[1]
 			}
-			sb.WriteString(fmt.Sprintf(`{"value":%s,"n":%d`, m["val"], i))
+			nField := fmt.Sprint(i)
+			if v, ok := m["n"]; ok {
+				nField = v // the declared position (the decoder takes outputs in array order whatever it says)
+			}
+			sb.WriteString(fmt.Sprintf(`{"value":%s,"n":%s`, m["val"], nField))
 			if m["spk"] != "ABSENT" {
 				sb.WriteString(fmt.Sprintf(`,"scriptPubKey":{"asm":"","hex":"%s","type":"x"}`, hexStr(m["spk"])))
 			}
@@ -409,7 +413,11 @@ func genC09(e *emitter, tier string, seed uint64) {
 				spk = "ABSENT"
 			}
 			vals := []string{"0", "0.00000001", "0.29", "1", "20999999.9769", "0.00000003", "12.5", "0.1", "0.00000546"}
-			vout = append(vout, fmt.Sprintf("val:%s,spk:%s", vals[r.n(len(vals))], spk))
+			ent := fmt.Sprintf("val:%s,spk:%s", vals[r.n(len(vals))], spk)
+			if r.chance(25) {
+				ent += ",n:" + []string{"0", "1", "2", "3", "4", "-1", "4294967295", "5", "100"}[r.n(9)] // integers: anything else is encoding/json's business
+			}
+			vout = append(vout, ent)
 		}
 		hx := "-"
 		if r.chance(25) {
